@@ -99,6 +99,8 @@ type Term struct {
 	hi   int    // OExtract hi ; OZext/OSext extra bits
 	lo   int
 	hasB bool // contains a bound variable (not safe to hoist into define-fun)
+	umOK bool
+	um   uint64
 }
 
 type TermStore struct {
@@ -739,6 +741,15 @@ func Neg(a *Term) *Term {
 // umax returns an upper bound of the unsigned value of t (cheap syntactic
 // interval analysis used to decide comparisons without the solver).
 func umax(t *Term) uint64 {
+	if t.umOK {
+		return t.um
+	}
+	r := umax0(t)
+	t.um, t.umOK = r, true
+	return r
+}
+
+func umax0(t *Term) uint64 {
 	switch t.op {
 	case OConst:
 		return t.val
@@ -1223,4 +1234,161 @@ func termSize(ts ...*Term) int {
 		st = append(st, t.args...)
 	}
 	return n
+}
+
+// rawAnd / rawOr build conjunctions/disjunctions without flattening (used for
+// long prefix chains where flattening would be quadratic).
+func rawAnd(a, b *Term) *Term {
+	if a == tTrue {
+		return b
+	}
+	if b == tTrue {
+		return a
+	}
+	if a == tFalse || b == tFalse {
+		return tFalse
+	}
+	return TS.mk(&Term{op: OAnd, sort: BoolSort, args: []*Term{a, b}})
+}
+
+func rawOr(xs []*Term) *Term {
+	var ys []*Term
+	for _, x := range xs {
+		if x == tTrue {
+			return tTrue
+		}
+		if x != tFalse {
+			ys = append(ys, x)
+		}
+	}
+	if len(ys) == 0 {
+		return tFalse
+	}
+	if len(ys) == 1 {
+		return ys[0]
+	}
+	return TS.mk(&Term{op: OOr, sort: BoolSort, args: ys})
+}
+
+// ---- contextual simplification under the literals of a path guard ----
+
+// guardLits extracts literal truth values from a guard: And(l1,..,ln) gives
+// each li true; Not(x) gives x false; Not(Or(a,b)) gives a,b false.
+func guardLits(g *Term) map[int]bool {
+	lits := map[int]bool{}
+	var pos func(t *Term)
+	var neg func(t *Term)
+	pos = func(t *Term) {
+		switch t.op {
+		case OConst:
+		case OAnd:
+			for _, a := range t.args {
+				pos(a)
+			}
+		case ONot:
+			neg(t.args[0])
+		default:
+			lits[t.id] = true
+		}
+	}
+	neg = func(t *Term) {
+		switch t.op {
+		case OConst:
+		case OOr:
+			for _, a := range t.args {
+				neg(a)
+			}
+		case ONot:
+			pos(t.args[0])
+		default:
+			lits[t.id] = false
+		}
+	}
+	pos(g)
+	return lits
+}
+
+func rebuild(t *Term, a []*Term) *Term {
+	switch t.op {
+	case ONot:
+		return Not(a[0])
+	case OAnd:
+		return And(a...)
+	case OOr:
+		return Or(a...)
+	case OIte:
+		return Ite(a[0], a[1], a[2])
+	case OEq:
+		return Eq(a[0], a[1])
+	case OAdd, OSub, OMul, OUDiv, OURem, OSDiv, OSRem, OBAnd, OBOr, OBXor, OShl, OLshr, OAshr:
+		return bin(t.op, a[0], a[1])
+	case OBNot:
+		return BNot(a[0])
+	case ONeg:
+		return Neg(a[0])
+	case OUlt, OUle, OSlt, OSle:
+		return cmp(t.op, a[0], a[1])
+	case OConcat:
+		return Concat(a[0], a[1])
+	case OExtract:
+		return Extract(a[0], t.hi, t.lo)
+	case OZext:
+		return Zext(a[0], t.hi)
+	case OSext:
+		return Sext(a[0], t.hi)
+	case OSelect:
+		return Select(a[0], a[1])
+	case OStore:
+		return Store(a[0], a[1], a[2])
+	case OApply:
+		return Apply(t.name, t.sort, a...)
+	}
+	return nil
+}
+
+// simplifyUnder rewrites t using known literal values (bounded effort).
+func simplifyUnder(t *Term, lits map[int]bool, budget int) *Term {
+	if len(lits) == 0 {
+		return t
+	}
+	memo := map[int]*Term{}
+	n := 0
+	var rec func(t *Term, depth int) *Term
+	rec = func(t *Term, depth int) *Term {
+		if t.sort.K == SBool {
+			if v, ok := lits[t.id]; ok {
+				return Bool(v)
+			}
+		}
+		if len(t.args) == 0 || t.hasB || depth > 12 {
+			return t
+		}
+		if r, ok := memo[t.id]; ok {
+			return r
+		}
+		n++
+		if n > budget {
+			return t
+		}
+		if t.op == OLambda || t.op == OConstArr {
+			return t
+		}
+		changed := false
+		na := make([]*Term, len(t.args))
+		for i, a := range t.args {
+			na[i] = rec(a, depth+1)
+			if na[i] != a {
+				changed = true
+			}
+		}
+		r := t
+		if changed {
+			if rb := rebuild(t, na); rb != nil {
+				r = rb
+			}
+		}
+		memo[t.id] = r
+		return r
+	}
+	return rec(t, 0)
 }
